@@ -684,4 +684,127 @@ theorem fresh_final (cfg : Cfg) (id : String) (c : Cell) (h : Fresh c) (ops : Li
     rw [quietFrom_no_point _ _ _ _ _ _ hp'] at hqf
     cases hqf
 
+/-! ### the uninterrupted run up to the point in flight, on cells -/
+
+def emptyCell : Cell := { ma := none, da := none, mn := none, dn := none, ta := 0, tn := 0, g := none }
+
+theorem cpoint_g (cfg : Cfg) (id : String) (c : Cell) (l : Nat) (t : Int) : (cpoint cfg id c l t).g = some l := by
+  cases hg : c.g with
+  | some x => rw [cpoint_some cfg id c l t x hg]; split <;> rfl
+  | none => rw [cpoint_none cfg id c l t hg]; split <;> rfl
+
+theorem crun_g (cfg : Cfg) (id : String) (c : Cell) (ops : List NOp) :
+    (crun cfg id c ops).g = ops.foldl (groupStep id) c.g := by
+  induction ops generalizing c with
+  | nil => rfl
+  | cons op rest ih =>
+    simp only [crun, List.foldl_cons] at *
+    rw [ih]
+    congr 1
+    cases op with
+    | point i l t =>
+      by_cases hi : i = id
+      · subst hi; simp [cstep, groupStep, cpoint_g]
+      · simp [cstep, groupStep, hi]
+    | taskRestart => rfl
+
+theorem faithful_point (cfg : Cfg) (id : String) (v : Nat) (c : Cell) (h : Norm cfg v c)
+    (fa : Faithful c.da) (fn : Faithful c.dn) (l : Nat) (t : Int) :
+    Faithful (cpoint cfg id c l t).da ∧ Faithful (cpoint cfg id c l t).dn := by
+  have key : ∀ (b : Bool) (c' : Cell), c'.da = c.da → c'.dn = c.dn →
+      Faithful (if b = true then cemit id l t c' else c').da ∧ Faithful (if b = true then cemit id l t c' else c').dn := by
+    intro b c' h1 h2
+    cases b
+    · simp only [Bool.false_eq_true, if_false, h1, h2]; exact ⟨fa, fn⟩
+    · simp only [if_true, cemit]
+      by_cases hl : l = 0
+      · simp only [hl, if_true]; exact ⟨(fun e he => by cases he), (fun e he => by cases he)⟩
+      · simp only [hl, if_false]
+        exact ⟨(fun e he => by cases he; exact hl), (fun e he => by cases he; exact hl)⟩
+  cases hg : c.g with
+  | some x => rw [cpoint_some cfg id c l t x hg]; exact key _ _ rfl rfl
+  | none =>
+    rw [cpoint_none cfg id c l t hg, quiet_restore cfg v c h.quiet]
+    exact key _ _ rfl rfl
+
+/-- without a crash every cell is NORMAL at the level of the spec, its disk holds no OK record, and the node's own
+state is the level of the id's last point since the task started -/
+theorem uninterrupted_cell (cfg : Cfg) (id : String) (ops : List NOp) :
+    Norm cfg (nodeLevel cfg.noRec ops id) (crun cfg id emptyCell ops) ∧
+    Faithful (crun cfg id emptyCell ops).da ∧ Faithful (crun cfg id emptyCell ops).dn ∧
+    (crun cfg id emptyCell ops).g = groupLevel ops id := by
+  have h0 : Norm cfg 0 emptyCell := ⟨rfl, rfl, rfl, rfl, rfl, rfl, fun x hx => by cases hx⟩
+  refine ⟨norm_run cfg id 0 emptyCell h0 ops, ?_⟩
+  rw [← and_assoc]
+  refine ⟨?_, crun_g cfg id emptyCell ops⟩
+  have : ∀ (v : Nat) (c : Cell), Norm cfg v c → Faithful c.da → Faithful c.dn →
+      Faithful (crun cfg id c ops).da ∧ Faithful (crun cfg id c ops).dn := by
+    induction ops with
+    | nil => intro v c _ fa fn; exact ⟨fa, fn⟩
+    | cons op rest ih =>
+      intro v c hn fa fn
+      simp only [crun, List.foldl_cons] at *
+      cases op with
+      | point i l t =>
+        by_cases hi : i = id
+        · subst hi
+          simp only [cstep, if_true]
+          obtain ⟨f1, f2⟩ := faithful_point cfg i v c hn fa fn l t
+          exact ih _ _ (norm_point cfg i v c hn l t) f1 f2
+        · simp only [cstep, hi, if_false]; exact ih v c hn fa fn
+      | taskRestart => exact ih v _ (norm_task cfg v c hn) fa fn
+  exact this 0 emptyCell h0 (fun e he => by cases he) (fun e he => by cases he)
+
+theorem coh_init (Ta Tn : String) : Coh Ta Tn {} :=
+  ⟨rfl, (fun _ _ _ he => by cases he), (fun _ _ _ he => by cases he), (fun hc => by cases hc), rfl⟩
+
+theorem cellOf_init (Ta Tn : String) (id : String) : cellOf Ta Tn {} id = emptyCell := rfl
+
+/-! ### the crash inside a point: what is on disk and what the handlers were told -/
+
+/-- the record of event `e` reaches the bucket of topic `T` (or not: `b = false`) -/
+def updIf (b : Bool) (T : String) (e : ES) (d : Store) : Store :=
+  if b then (if e.level = 0 then d.del T e.id else d.put T e) else d
+
+theorem collect_prefix (s : Svc) (hp : s.persist = true) (T : String) (e : ES) (m : Nat) :
+    (runMicros s ((collectMicros T e).take m)).persist = true ∧
+    (runMicros s ((collectMicros T e).take m)).disk = updIf (decide (4 ≤ m)) T e s.disk ∧
+    (runMicros s ((collectMicros T e).take m)).told =
+      s.told ++ (if 3 ≤ m then [{ topic := T, id := e.id, level := e.level, time := e.time }] else []) := by
+  rcases m with _ | _ | _ | _ | m
+  · simp [runMicros, updIf, hp]
+  · by_cases hc : s.closed T = true <;> simp [collectMicros, runMicros, exec, updIf, hp, hc]
+  · by_cases hc : s.closed T = true <;> simp [collectMicros, runMicros, exec, updIf, hp, hc]
+  · by_cases hc : s.closed T = true <;> simp [collectMicros, runMicros, exec, updIf, hp, hc]
+  · have : (collectMicros T e).take (m + 1 + 1 + 1 + 1) = collectMicros T e := by
+      apply List.take_of_length_le; simp [collectMicros]
+    rw [this]
+    by_cases hc : s.closed T = true <;> by_cases hl : e.level = 0 <;>
+      simp [collectMicros, runMicros, exec, updIf, hp, hc, hl]
+
+theorem emit_prefix (s : Svc) (hp : s.persist = true) (Ta Tn : String) (e : ES) (m : Nat) :
+    (runMicros s ((collectMicros Ta e ++ collectMicros Tn e).take m)).persist = true ∧
+    (runMicros s ((collectMicros Ta e ++ collectMicros Tn e).take m)).disk =
+      updIf (decide (8 ≤ m)) Tn e (updIf (decide (4 ≤ m)) Ta e s.disk) ∧
+    (runMicros s ((collectMicros Ta e ++ collectMicros Tn e).take m)).told =
+      s.told ++ (if 3 ≤ m then [{ topic := Ta, id := e.id, level := e.level, time := e.time }] else []) ++
+        (if 7 ≤ m then [{ topic := Tn, id := e.id, level := e.level, time := e.time }] else []) := by
+  have hlen : (collectMicros Ta e).length = 4 := by simp [collectMicros]
+  rw [List.take_append, hlen, runMicros_append]
+  obtain ⟨p1, d1, t1⟩ := collect_prefix s hp Ta e m
+  obtain ⟨p2, d2, t2⟩ := collect_prefix _ p1 Tn e (m - 4)
+  refine ⟨p2, ?_, ?_⟩
+  · rw [d2, d1]
+    have : decide (4 ≤ m - 4) = decide (8 ≤ m) := by
+      by_cases h : 8 ≤ m
+      · have : 4 ≤ m - 4 := by omega
+        simp [h, this]
+      · have : ¬ 4 ≤ m - 4 := by omega
+        simp [h, this]
+    rw [this]
+  · rw [t2, t1]
+    have : (3 ≤ m - 4) = (7 ≤ m) := by
+      apply propext; constructor <;> intro h <;> omega
+    simp only [this]
+
 end Kap.C08
